@@ -241,7 +241,7 @@ class GoDriver:
 
     def _dirs(self):
         self.n += 1
-        base = os.path.join(scratch_root(), 'run-%s-%d-%d' % (self.tag, os.getpid(), self.n))
+        base = os.path.join(scratch_root(), 'run-%s-%07d-%05d' % (self.tag, os.getpid(), self.n))   # fixed width: `gen man` prints $HOME
         home = os.path.join(base, 'home')
         work = os.path.join(base, 'work')
         os.makedirs(home, exist_ok=True)
@@ -309,7 +309,7 @@ class GoDriver:
 
 def run_real_binary(binary, argv, files, env_extra=None, tz='UTC', stdout_to=None, timeout=20, home_config=None):
     """run the untagged binary as a sub-process in a scratch directory with the given files"""
-    base = os.path.join(scratch_root(), 'real-%d-%d' % (os.getpid(), int(time.time() * 1e6) % 10**9))
+    base = os.path.join(scratch_root(), 'real-%07d-%09d' % (os.getpid(), int(time.time() * 1e6) % 10**9))
     binary = staged(binary)
     home = os.path.join(base, 'home')
     work = os.path.join(base, 'work')
